@@ -11,7 +11,8 @@ def run(ctx):
                 "0..15 padding bytes and server/client msg_id parity}; plus serializePacket, Unencrypted.Serialize/Deserialize (intact and damaged), "
                 "isPacketEncrypted, the real transport.ReadMsg over a loopback connection (harness = server), and msg_ids over the whole int64 range "
                 "({0, 2^63, -1, 2^63-1, realistic and random upper halves with bit 63 clear/set} x low bits 00/01/10/11: opened iff 01/11) through "
-                "DeserializeEncrypted, DeserializeUnencrypted and ReadMsg. Each sealed packet is (a) compared byte for byte with the extracted Coq seal_client, "
+                "DeserializeEncrypted, DeserializeUnencrypted and ReadMsg; sequences of 7 valid server packets in one process (smaller, equal, other key, larger, ...) "
+                "with every returned message object and input buffer kept and re-read after each later call. Each sealed packet is (a) compared byte for byte with the extracted Coq seal_client, "
                 "(b) opened by an independent Go reference server written from the spec (crypto/aes + crypto/sha1): fields, padding < 16, key id / msg_key offsets; "
                 "each reference-server packet is opened by DeserializeEncrypted and by the extracted open_client; the Coq spec side (open_server / seal_server) "
                 "is compared with the Go reference on a third of the cases. Bodies of ~2^16 bytes run on the implementation + reference only (quick tier). "
